@@ -17,7 +17,10 @@ amount, repair 4b549c9) → transfer faucet→client, `Used += amount` (user and
 * a contract error (`Res.err`) leaves the contract state unchanged (the engine discards the writes); the failed
   transaction still consumes the sender's nonce, which creates the sender's account (balance 0) if it had none
   (`touch`); the same holds for a successful transaction.
-* not modelled: `update-settings` (config is a parameter of the initial state), cost tables, REST handlers.
+* `update-settings` is modelled for well-formed requests that give all six amounts/durations (the harness sends
+  exactly those): owner check, the new configuration must pass `validate`, the global node is saved — with the window
+  reset of `getGlobalVariables` applied and `Used` KEPT. Not modelled: malformed field values, owner_id and cost
+  changes, cost tables, REST handlers.
 Core-only (no Mathlib).
 -/
 namespace ZChain.Faucet
@@ -53,13 +56,14 @@ deriving Repr, DecidableEq, Inhabited
 
 inductive Err where
   | coin (e : Coin.Err)
-  | noFaucetState | pourGtBalance | periodicLimit | globalLimit | broke | noClientState
+  | noFaucetState | pourGtBalance | periodicLimit | globalLimit | broke | noClientState | notOwner | invalidConfig
 deriving Repr, DecidableEq, Inhabited
 
 def Err.tag : Err → String
   | .coin e => e.tag
   | .noFaucetState => "no-faucet-state" | .pourGtBalance => "pour-gt-balance" | .periodicLimit => "periodic-limit"
   | .globalLimit => "global-limit" | .broke => "broke" | .noClientState => "no-client-state"
+  | .notOwner => "not-owner" | .invalidConfig => "invalid-config"
 
 inductive Res where
   | ok (st : St) (amount : Nat)
@@ -138,6 +142,17 @@ def refill (st : St) (c value : Nat) (now : Int) : Res :=
       if value = 0 then .ok st1 0
       else .ok { st1 with faucet := some (st.faucet.getD 0 + value), accounts := upsert st.accounts c (cb - value) } value
     else .err .broke
+
+/-- the faucet owner (`FaucetConfig.OwnerId`; the harness makes client 7 the owner). -/
+def ownerId : Nat := 7
+
+/-- the `update-settings` transaction with a complete, well-formed set of new values: only the owner; the new
+configuration must validate; the saved global node carries the (possibly reset) window and its `Used` unchanged. -/
+def updateSettings (st : St) (c : Nat) (conf' : Conf) (now : Int) : Res :=
+  let (gUsed, gStart) := globalVars st now
+  if c ≠ ownerId then .err .notOwner
+  else if conf'.valid then .ok { st with conf := conf', gUsed := gUsed, gStart := some gStart } 0
+  else .err .invalidConfig
 
 /-- the engine's nonce increment creates the sender's state node. -/
 def touch (accounts : List (Nat × Nat)) (c : Nat) : List (Nat × Nat) :=
